@@ -53,3 +53,4 @@ CORR["cauchy"] = _wrap_agent("harness.corr.cauchy", "Cauchy-point model vs get_c
 CORR["subspace"] = _wrap_agent("harness.corr.subspace", "subspace-step model vs get_freev + subspace_minimization")
 CORR["dcsrch"] = _wrap_agent("harness.corr.dcsrch", "DCSRCH model vs scipy.optimize._dcsrch.DCSRCH")
 CORR["fcauchy"] = _wrap_agent("harness.corr.fcauchy", "binary64 Cauchy-point model vs get_cauchy_point (bit-exact)")
+CORR["fsubspace"] = _wrap_agent("harness.corr.fsubspace", "binary64 subspace-step model vs get_freev + subspace_minimization (bit-exact)")
